@@ -66,6 +66,14 @@ pub const FAMILIES: &[Family] = &[
     Family { name: "inchexstr-size", nesting: false, gen: |_, k| format!("#d inchexstr(\"data.bin\", 1, {})\n", k) },
     Family { name: "mul-growth", nesting: false, gen: |_, k| format!("a = 1 << ({} & 0xfffff)\nb = a * a * a * a\n#d8 (b * b * b * b)`8\n", k) },
     Family { name: "iters", nesting: false, gen: |_, _| "#d8 1\n".to_string() },
+    // added after the libFuzzer phase of C03 met `{a: u4444444444444449} => a @ b` (families are appended: indices stay stable)
+    Family { name: "type-width-concat", nesting: false, gen: |_, k| format!("#ruledef\n{{\n    t {{x: u{}}} => x @ 0x1\n}}\nt 1\n", k) },
+    Family { name: "type-width-whole", nesting: false, gen: |_, k| format!("#ruledef\n{{\n    t {{x: s{}}} => x\n}}\nt 1\n", k) },
+    Family { name: "type-width-signed-concat", nesting: false, gen: |_, k| format!("#ruledef\n{{\n    t {{x: i{}}} => 0x1 @ x @ 0x1\n}}\nt -1\n", k) },
+    Family { name: "concat-slices", nesting: false, gen: |_, k| format!("x = (1`{}) @ (1`{}) @ (1`{})\n#d8 x`8\n", k, k, k) },
+    Family { name: "data-concat-slices", nesting: false, gen: |_, k| format!("#d (1`{}) @ (1`{})\n", k, k) },
+    Family { name: "le-width", nesting: false, gen: |_, k| format!("x = le(1`({} & ~7))\n#d8 x`8\n", k) },
+    Family { name: "type-width-subrule", nesting: false, gen: |_, k| format!("#subruledef r\n{{\n    {{v: u{}}} => v\n}}\n#ruledef\n{{\n    t {{a: r}} => a @ a\n}}\nt 1\n", k) },
 ];
 
 pub fn magnitudes() -> Vec<String> {
@@ -81,6 +89,9 @@ pub fn magnitudes() -> Vec<String> {
     v.push("6400000000".to_string());
     v.push("-1".to_string());
     v.push("0".to_string());
+    // appended later (slots are stable): just below the supported size, where only a combination exceeds it
+    v.push("400000000".to_string());
+    v.push("799999999".to_string());
     v
 }
 
@@ -199,6 +210,17 @@ impl Property for C19 {
                 Some(101) => Some(format!("panic {}", stderr.lines().find(|l| l.contains("panicked at")).map(|l| crate::engine::sut::panic_site(&l.replace("thread 'main' panicked at ", "x @ ").replace(":\n", ""))).unwrap_or_default())),
                 c => Some(format!("exit status {:?}", c)),
             }
+        };
+        // A magnitude inside the supported range (below BIGINT_MAX_BITS = 8e8) does not "ask for more than the
+        // assembler supports": work proportional to it (12-32 s measured for 4e8..8e8 bits) is not a hang. Only the
+        // time budget is waived there; every other kind of death is still judged.
+        let in_range_large = !fam.nesting && mag.parse::<u64>().map(|m| (100_000_000..800_000_000).contains(&m)).unwrap_or(false);
+        let outcome = match outcome {
+            Some(o) if in_range_large && (o.starts_with("cpu-limit") || o.starts_with("wall-clock")) => {
+                ctx.label("time-budget-waived:in-range-magnitude");
+                None
+            }
+            o => o,
         };
         match outcome {
             None => Verdict::Pass,
